@@ -452,6 +452,8 @@ def _bad_header(rep, pool, driver, r, quick):
                     entry, kind, pos, n_chunks, a.get('err', 'no exception') + ' ' + a.get('cls', ''))
             elif 'err' in b and pos > 0:
                 prob = '%s rejected the good prefix: %r' % (entry, b)
+            elif 'cells' not in a or 'cells' not in b:
+                prob = '%s: %r / prefix run %r' % (entry, {k: a.get(k) for k in ('err', 'msg')}, {k: b.get(k) for k in ('err', 'msg')})
             elif a['cells'] != b['cells']:
                 prob = '%s learned from chunks at or behind the rejected one: weights %r, prefix-only %r' % (entry, a['cells'][:4], b['cells'][:4])
         if prob:
